@@ -19,6 +19,7 @@ import (
 	"github.com/ipld/go-ipld-prime/datamodel"
 	cidlink "github.com/ipld/go-ipld-prime/linking/cid"
 	"github.com/ipld/go-ipld-prime/node/basicnode"
+	"github.com/ipld/go-ipld-prime/schema"
 	selectorparse "github.com/ipld/go-ipld-prime/traversal/selector/parse"
 	"github.com/libp2p/go-libp2p/core/peer"
 
@@ -245,6 +246,9 @@ func (e *refEnc) node(n datamodel.Node) {
 	if n == nil {
 		e.null()
 		return
+	}
+	if tn, ok := n.(schema.TypedNode); ok {
+		n = tn.Representation() // what goes on the wire / to disk is the representation of a typed value
 	}
 	switch n.Kind() {
 	case datamodel.Kind_Null:
